@@ -388,3 +388,8 @@ _run_c20 = run
 def run(rep, programs):  # noqa: F811
     _run_c20(rep, programs)
     r_trace_size(rep, programs["eval"])
+
+
+EXPLANATION = EXPLANATION + (
+    ' R-TRACE-SIZE: the managed size and the record table length computed by ParsedTrace::parse cover the (inclusive) highest traced frame: round_up(header.max_pfn + c), c >= 1.'
+)
